@@ -396,6 +396,46 @@ func runC05(c *core.Ctx) {
 			}
 		}
 	}
+	// rows whose amounts are nearly equal in a chain (each neighbour closer than what two decimals show, the ends not),
+	// the names running the other way (round 13, L05: one unstable sort over the map's order with a comparator that
+	// takes amounts that print alike for equal - not transitive, so the order depends on where the sort starts)
+	{
+		srv := pool.Servers[0]
+		for ci, steps := range [][]string{{"1.000", "1.004", "1.008"}, {"2.000", "2.003", "2.006", "2.009", "2.012"}, {"0.996", "1.000", "1.004", "1.008", "1.012", "1.016", "1.020"}, {"5", "5.0049", "5.0098", "5.0147"}, {"-1.008", "-1.004", "-1.000"}, {"1", "1", "1.004", "1.004", "1.008"}} {
+			var lg, bk strings.Builder
+			lg.WriteString("2021/01/01:\n")
+			for k, amount := range steps {
+				name := string(rune('z' - k))
+				fmt.Fprintf(&lg, "  %s%s: %s\n", name, name, amount)
+				fmt.Fprintf(&bk, "%s%s:\n  el%s: 1\n  kcal: 1\n", name, name, name)
+			}
+			files := map[string]string{"food.yaml": bk.String(), "empty.yaml": "", "log.yaml": lg.String()}
+			srv.Write(files)
+			for _, cmd := range [][]string{{"-d", "empty.yaml", "report", "quantity"}, {"-d", "empty.yaml", "report", "quantity", "--desc"}, {"-d", "food.yaml", "report", "totals"}, {"-d", "food.yaml", "report", "quantity"},
+				{"-d", "empty.yaml", "report", "unresolved"}, {"-d", "empty.yaml", "report", "totals"}, {"-d", "empty.yaml", "bal"}, {"-d", "food.yaml", "reg", "--totals-only"}} {
+				args := append([]string{"--no-color", "-l", "log.yaml"}, cmd...)
+				outcomes := map[string]int{}
+				for _, v := range srv.App(args, nil, 40) {
+					outcomes[fmt.Sprintf("exit=%d\nerr=%s\n%s", btoi(v.Exit != 0), strings.TrimSpace(v.ErrText()), v.Out)] += v.Count
+				}
+				for k := 0; k < 4; k++ {
+					v := run.Exec(c.HR, args, run.ExecOpts{Dir: srv.Dir})
+					outcomes[fmt.Sprintf("exit=%d\nerr=%s\n%s", btoi(v.Exit != 0), strings.TrimSpace(v.ErrText()), v.Out)]++
+				}
+				c.Eval(44)
+				c.Count("cases_with_a_chain_of_nearly_equal_amounts", 1)
+				c.Nontrivial("near-equal-chain", fmt.Sprint(ci), joinArgs(cmd))
+				if len(outcomes) > 1 {
+					var ks []string
+					for k, cnt := range outcomes {
+						ks = append(ks, fmt.Sprintf("[%d runs] %s", cnt, clip(k, 500)))
+					}
+					sort.Strings(ks)
+					c.Violation(strings.Join(cmd[2:min(4, len(cmd))], " ")+"|output-varies", fmt.Sprintf("%d different outcomes for identical inputs (amounts %v, names in the opposite order): %s", len(outcomes), steps, joinArgs(cmd)), caseDoc{Files: files, Args: args, Observed: ks})
+				}
+			}
+		}
+	}
 	// a report while another report - other files, other options - is alive in the same process
 	nestedReports(c, pool, c.N(200, 2500), nestedAnyShape)
 	// and requests served one after the other by one application value
